@@ -70,8 +70,9 @@ reg("C18",
          "the cache entries still read back")
 
 reg("C02",
-    gen=lambda seed, tier: P.gen_roundtrip_programs(G.Rng(seed + 2), N(tier, 120, 1500), big=N(tier, 0.03, 0.08)),
-    monitors=[P.mon_roundtrip],
+    gen=lambda seed, tier: (P.gen_roundtrip_programs(G.Rng(seed + 2), N(tier, 120, 1500), big=N(tier, 0.03, 0.08)) +
+                            P.gen_streamed_readback_programs()),
+    monitors=[lambda rr: P.mon_streamed_readback(rr) if "sread" in rr.prog.tags else P.mon_roundtrip(rr)],
     extra=lambda seed, tier, flavours: merge(
         LG.leg_resumed_writer(flavours if tier == "thorough" else flavours[:1]),
         LG.leg_skeleton(P.gen_roundtrip_programs(G.Rng(seed + 21), N(tier, 6, 40)), flavours[0])),
